@@ -15,8 +15,11 @@ THEOREMS = ["C05_source_shape", "C05_attempt_budget", "C05_non_retryable_once", 
             "C05_accounting_init", "C05_accounting_init_resumed", "C05_accounting_invariant", "C05_retry_records_wellformed",
             "C05_budget_never_exceeded", "C05_reported_attempts_exact", "C05_no_policy_single_attempt", "C05_delay_budget_reachable",
             "C05_step_failed_event_exact", "C05_retry_info_reachable", "C05_accounting_source_shape",
-            # one failed execution, one successor: refuted (stale collect re-run + granted retry in one result list), guarded part, whole-run witness
-            "C05_refuted_failed_execution_one_successor", "C05_failed_execution_one_successor_partial", "C05_fork_run_exceeds_budget"]
+            # one failed execution, one successor (re-run in place or retry, never both): proved for the reducer, refuted for the one before the repair
+            "C05_failed_execution_one_successor", "C05_one_successor_source_shape", "C05_refuted_failed_execution_one_successor_unrepaired",
+            "C05_failed_execution_one_successor_partial", "C05_failure_after_scheduled_rerun_skipped",
+            "C05_fork_run_exceeds_budget_unrepaired", "C05_fork_run_within_budget",
+            "C05_retry_numbers_consecutive", "C05_reported_attempts_consecutive"]
 LEAN_TARGETS = ["WfProps.C05"]
 EXPLANATION = (
     "Policy layer (bodies translated from retry_policy.py on every run): stop_after_attempt(n) => exactly max(n,1) "
@@ -62,11 +65,11 @@ def run(env: Env) -> Outcome:
     policy_tree.bounds_stream(env, out, env.budget(400, 8000))
     policy_tree.retry_info_correspondence(env, out, env.budget(300, 6000))
     suite.direct_corr(env, out, env.budget(2000, 40000))
-    # observation (no violations): ticks that both re-run and retry one failed execution; the witness run on the real engine
-    forks = c05_fork.Observer(out)
-    c05_fork.witness(env, out)
-    suite.live_runs(env, out, env.budget(200, 4000), [monitors.mon_c05, forks.monitor], extra_specs=suite.load_corpus("C05"))
-    suite.live_runs(env, out, env.budget(300, 6000), [monitors.mon_c05, forks.monitor], gen_kwargs={"family": "retry"})
+    # + one failed execution has one successor (re-run in place OR retry, c05_fork.mon_fork); the corpus holds the regression case
+    suite.live_runs(env, out, env.budget(200, 4000), [c05_fork.mon_fork, monitors.mon_c05], extra_specs=suite.load_corpus("C05"))
+    suite.live_runs(env, out, env.budget(300, 6000), [c05_fork.mon_fork, monitors.mon_c05], gen_kwargs={"family": "retry"})
+    # collecting steps with retry policies that raise while their collection is incomplete (stale snapshots + failures in one result list)
+    suite.live_runs(env, out, env.budget(60, 1200), [c05_fork.mon_fork, monitors.mon_c05], gen_kwargs={"family": "fanin", "raise_incomplete": True})
     # retried invocations that suspend in wait_for_event (before / after / around the wait), also under a catch_error handler
     suite.live_runs(env, out, env.budget(120, 2400), [monitors.mon_c05], gen_kwargs={"family": "wait_retry"})
     return out
